@@ -91,7 +91,18 @@ class Ctx:
         for f in core:
             s.add(f)
         t0 = time.time()
-        r = str(s.check())
+        # z3's own timeout is not always honoured inside nlsat: a watchdog interrupts the context shortly after it
+        import threading
+        budget = int(timeout_ms or self.query_timeout_ms) / 1000.0
+        wd = threading.Timer(budget * 1.25 + 5, z3.main_ctx().interrupt)
+        wd.daemon = True
+        wd.start()
+        try:
+            r = str(s.check())
+        except z3.Z3Exception:
+            r = "unknown"
+        finally:
+            wd.cancel()
         dt = time.time() - t0
         self.stats["queries"] += 1
         self.stats["solver_s"] += dt
